@@ -109,6 +109,12 @@ class Check:
                 if pth not in have:
                     have.add(pth)
                     world["nodes"].append({"path": pth, "type": "file", "content": "x" * rng.choice([1, 2, 10])})
+        arc = rng.random() < 0.15
+        if arc:
+            # archive members are entries too: they take part in the partition (with empty values for what a member does not have)
+            from .c06 import add_zips
+            gen.zipify(rng, world, p=0)
+            add_zips(rng, world, tops)
         keys = rng.sample(GKEYS, rng.choice([1, 1, 2, 2]))
         aggs = ["count(*)"] + rng.sample(AGGS[1:], rng.choice([1, 2, 4, 6]))
         aggs = [a for a in AGGS if a in aggs]
@@ -126,7 +132,7 @@ class Check:
             for p, kv in ov.items():
                 plan.setdefault("stat", {}).setdefault(p, {}).update({k: v for k, v in kv.items() if k == "uid"})
         seeds = [rng.getrandbits(48) for _ in range(3)]
-        return {"world": world, "roots": [{"top": tops[0], "mode": rng.choice(["bfs", "dfs"])}], "keys": keys, "aggs": aggs, "where": where, "order": order,
+        return {"world": world, "roots": [{"top": tops[0], "mode": rng.choice(["bfs", "dfs"]) + (" archives" if arc else "")}], "keys": keys, "aggs": aggs, "where": where, "order": order,
                 "plans": envs, "seeds": seeds}
 
     def sample_view(self, case):
